@@ -281,6 +281,7 @@ def run(chk: Check, only_numeric: bool = False) -> None:
         run_lib_rt_sizes_and_signs(chk, ix, funcs)
         run_codec_fast_paths(chk, ix)
         run_pending_return_test(chk, ix)
+        run_static_lengths_are_exact(chk, ix)
         pass_order(chk, ix)
 
 
@@ -864,3 +865,30 @@ def run_pending_return_test(chk: Check, ix) -> None:
             r.violation(key, f.loc(tests[0]), "`Branch(<ret_reg>, ..., Branch.IS_ERROR)` is the only record of whether the try body returned: `def f(x: i64) -> i64: try: return x finally: pass; return 0` gives 0 for f(-113) (and 0.0 for the float twin with -113.0), CPython returns the argument")
     if n < 2:
         raise AnalysisError(f"statement.py: {n} pending-return tests found (expected the two try/finally lowerings)")
+
+
+def run_static_lengths_are_exact(chk: Check, ix) -> None:
+    """R05.17: a length known at compile time is a length, not a bound."""
+    from ..cfg import branch_conditions
+    r = chk.rule("R05.17", "for_helpers.get_expr_length returns the number of items an expression will produce when that is known statically; its result is folded into `len(...)` and used to preallocate comprehension results that are then filled with unchecked stores. Where it combines the lengths of several inputs (`zip(a, b)`: min of the lengths) the combination is returned only if *every* input length is known (`all(x is not None ...)` over the unfiltered list): the minimum over the known ones is only an upper bound, and a shorter dynamic input then gives a wrong `len` and a result list with NULL items", floor=1)
+    f = ix.func("mypyc.irbuild.for_helpers.get_expr_length")
+    par = f.module.parents()
+    n = 0
+    for ret in ast.walk(f.node):
+        if not (isinstance(ret, ast.Return) and isinstance(ret.value, ast.Call) and call_name(ret.value) in ("min", "max", "sum") and ret.value.args and isinstance(ret.value.args[0], ast.Name)):
+            continue
+        n += 1
+        lst = ret.value.args[0].id
+        key = f"get_expr_length: `{norm(ret.value)}` combines the lengths of all inputs, each of them known"
+        defs = [a for a in ast.walk(f.node) if isinstance(a, ast.Assign) and len(a.targets) == 1 and norm(a.targets[0]) == lst]
+        filtered = any(isinstance(a.value, (ast.ListComp, ast.GeneratorExp)) and any("is not None" in norm(c) or "is None" in norm(c) for g in a.value.generators for c in g.ifs) for a in defs)
+        pos, neg = branch_conditions(par, f.node, ret)
+        all_known = any(isinstance(c, ast.Call) and call_name(c) == "all" and lst in norm(c) and "is not None" in norm(c) for t in pos for c in ast.walk(t))
+        if filtered:
+            r.violation(key, f.loc(ret), f"`{lst}` keeps only the lengths that are known (`{norm(defs[0].value)[:70]}`): the combination is a bound, not the length; `len(list(zip('abc', xs)))` is folded to 3 whatever xs holds, and a comprehension over it preallocates 3 slots")
+        elif all_known:
+            r.ok(key, f.loc(ret))
+        else:
+            r.violation(key, f.loc(ret), f"`{norm(ret.value)}` is returned without an `all(x is not None for x in {lst})` test: an unknown input length (None) either crashes the comparison or is ignored")
+    if n < 1:
+        raise AnalysisError("get_expr_length: no combined length (min/max/sum over argument lengths) found; zip() had one")
